@@ -99,7 +99,7 @@ def main(argv):
         rep = {"evals": 0, "distinct": 0, "nontrivial": 0, "classes": {}, "samples": [], "exhaustive": False}
         parts = []
         if corpus:
-            parts.append(runner.run_slice(sl, seed, 0, tier, 1, cases=corpus))
+            parts.append(runner.run_slice(sl, seed, 0, tier, 2, cases=corpus))
         ex = getattr(sl, "exhaustive", None)
         b = budget.get(sl.name, 0)
         extra_random = 0
